@@ -1,0 +1,6 @@
+//go:build verif
+
+package search
+
+// VerifSetCandSourceHook records which candidate source each query used.
+func VerifSetCandSourceHook(fn func(string)) { candSourceHook = fn }
